@@ -175,6 +175,51 @@ def api_event(st, name, ret, args, node):
     st.trace.append(('api', name, ret, list(args), node_loc(node)))
 
 
+def own_alloc(it, st, family, ref, node, name):
+    st.trace.append(('alloc', family, ref, node_loc(node), name))
+    if getattr(it.rule, 'track_own', False) and isinstance(ref, Ref):
+        own = dict(st.ts.get('own', {}))
+        own[ref.loc] = (family, node_loc(node), name)
+        st.ts['own'] = own
+
+
+def own_free(it, st, family, v, node, name):
+    st.trace.append(('free', family, v, node_loc(node), name))
+    if getattr(it.rule, 'track_own', False) and isinstance(v, Ref) and v.loc[0] == 'obj':
+        own = dict(st.ts.get('own', {}))
+        freed = dict(st.ts.get('freed_at', {}))
+        if v.loc in own:
+            f0 = own[v.loc][0]
+            if f0 != family:
+                st.ts['probs'] = st.ts.get('probs', ()) + (
+                    ('wrong-family', '%s->%s' % (own[v.loc][2], name),
+                     'object allocated by %s (family %s, %s:%s) is released with %s (family %s)'
+                     % (own[v.loc][2], f0, own[v.loc][1][0], own[v.loc][1][1], name, family), node_loc(node)),)
+            del own[v.loc]
+            freed[v.loc] = (name, node_loc(node))
+        elif v.loc in getattr(it.rule, 'root_families', {}) and it.rule.root_families[v.loc] != family:
+            st.ts['probs'] = st.ts.get('probs', ()) + (
+                ('wrong-family', 'caller-object->%s' % name,
+                 'an object owned by the caller (family %s) is released with %s (family %s)'
+                 % (it.rule.root_families[v.loc], name, family), node_loc(node)),)
+        elif v.loc in freed:
+            st.ts['probs'] = st.ts.get('probs', ()) + (
+                ('double-free', name, 'object %s is released twice (%s:%s and %s:%s)'
+                 % (v.loc[1], freed[v.loc][1][0], freed[v.loc][1][1], node_loc(node)[0], node_loc(node)[1]), node_loc(node)),)
+        st.ts['own'] = own
+        st.ts['freed_at'] = freed
+    release_object(it, st, v)
+
+
+def own_sink(it, st, v, node, name):
+    st.trace.append(('sink', name, v, node_loc(node)))
+    if getattr(it.rule, 'track_own', False) and isinstance(v, Ref):
+        own = dict(st.ts.get('own', {}))
+        if v.loc in own:
+            del own[v.loc]
+            st.ts['own'] = own
+
+
 def release_object(it, st, v):
     """the storage of a released heap object is gone: forget its fields (json values are reference counted:
     a decref is modelled as a release of the reference, the fields are dropped only for plain buffers)"""
@@ -204,6 +249,34 @@ def generic(name, spec):
         seq = st.sites.get(skey, 0) + 1
         st.sites[skey] = seq
         # out-parameters
+        oa = spec.get('out_alloc', {})
+        if oa and not spec.get('_noalloc'):
+            # two outcomes: the library produced the object(s) / it failed and left the out-parameter alone
+            s_ok = st.clone()
+            for p, fam in oa.items():
+                if p < len(args) and isinstance(args[p], Ref):
+                    a = args[p]
+                    o = s_ok.newobj('%s@%s' % (name, site(node)))
+                    own_alloc(it, s_ok, fam, Ref(o), node, name)
+                    it.store(s_ok, a.loc, a.path, Ref(o))
+                    rule.on_store(it, s_ok, a.loc, a.path, Ref(o), node)
+            dom = spec.get('dom') or ()
+            okv = [v for v in dom if v > 0] or [v for v in dom if v == 0]
+            if name.startswith('gnutls_'):
+                okv = [0]
+            t_ok = Term(('api', name, site(node), seq, 'ok'))
+            if spec.get('ret') == 'size':
+                s_ok.cons[t_ok.k] = (('>=', 1),)
+            else:
+                s_ok.dom[t_ok.k] = tuple(okv) if okv else (1,)
+            api_event(s_ok, name, t_ok, args, node)
+            t_f = Term(('api', name, site(node), seq, 'fail'))
+            if spec.get('ret') == 'size':
+                st.dom[t_f.k] = (0,)
+            else:
+                st.dom[t_f.k] = tuple(v for v in dom if v not in okv) or (0,)
+            api_event(st, name, t_f, args, node)
+            return [(s_ok, t_ok), (st, t_f)]
         for p in spec.get('out', ()):
             if p < len(args) and isinstance(args[p], Ref):
                 a = args[p]
@@ -219,8 +292,7 @@ def generic(name, spec):
             fr = spec.get('free')
             if fr:
                 fa = args[fr[1]] if fr[1] < len(args) else None
-                st.trace.append(('free', fr[0], fa, node_loc(node), name))
-                release_object(it, st, fa)
+                own_free(it, st, fr[0], fa, node, name)
             api_event(st, name, None, args, node)
             return [(st, Int(0))]
         if ret in ('int', 'size'):
@@ -235,11 +307,10 @@ def generic(name, spec):
             fr = spec.get('free')
             if fr:
                 fa = args[fr[1]] if fr[1] < len(args) else None
-                st.trace.append(('free', fr[0], fa, node_loc(node), name))
-                release_object(it, st, fa)
+                own_free(it, st, fr[0], fa, node, name)
             for p in spec.get('takes', ()):
                 if p < len(args):
-                    st.trace.append(('sink', name, args[p], node_loc(node)))
+                    own_sink(it, st, args[p], node, name)
             api_event(st, name, t, args, node)
             return [(st, t)]
         if ret == 'ptr':
@@ -252,7 +323,7 @@ def generic(name, spec):
                 o = s1.newobj('%s@%s' % (name, site(node)))
                 if 'jtype' in spec:
                     s1.mem[(o, 'type')] = Int(spec['jtype'])
-                s1.trace.append(('alloc', fam, Ref(o), node_loc(node), name))
+                own_alloc(it, s1, fam, Ref(o), node, name)
                 api_event(s1, name, Ref(o), args, node)
                 outs.append((s1, Ref(o)))
                 if may_fail:
@@ -270,7 +341,7 @@ def generic(name, spec):
                 it.nullable.add(t.k)
             for p in spec.get('takes', ()):
                 if p < len(args):
-                    st.trace.append(('sink', name, args[p], node_loc(node)))
+                    own_sink(it, st, args[p], node, name)
             api_event(st, name, t, args, node)
             return [(st, t)]
         raise ValueError(ret)
@@ -416,6 +487,50 @@ def h_memset(it, st, args, node):
     return [(st, dst)] if not st.dead else []
 
 
+def h_json_string_value(it, st, args, node):
+    """json_string_value(v): NULL unless v is a JSON string; the result is a function of v"""
+    v = args[0]
+    t = Term(('json_str', vkey(v)), ptr=True)
+    known = False
+    if isinstance(v, Term):
+        tk = ('mem', ('term', v.k), 'type')
+        if tk in st.cons or tk in st.dom:
+            vals = it.feasible_vals(st, tk, (JSON_TYPES['JSON_STRING'],))
+            known = bool(vals) and all(x == JSON_TYPES['JSON_STRING'] for x in vals)
+    elif isinstance(v, Ref):
+        ty = st.mem.get((v.loc, 'type'))
+        known = isinstance(ty, Int) and ty.v == JSON_TYPES['JSON_STRING']
+    if known:
+        st.ptrfact[t.k] = 'nonnull'
+    elif st.ptrfact.get(t.k) is None:
+        it.nullable.add(t.k)
+    st.trace.append(('api', 'json_string_value', t, list(args), node_loc(node)))
+    return [(st, t)]
+
+
+def h_json_decrefp(it, st, args, node):
+    """static inline in jansson.h: if (json) { json_decref(*json); *json = NULL; }"""
+    a = args[0]
+    if isinstance(a, Ref):
+        v = it.load(st, a.loc, a.path)
+        own_free(it, st, 'json', v, node, 'json_decrefp')
+        it.store(st, a.loc, a.path, NULL)
+        it.rule.on_store(it, st, a.loc, a.path, NULL, node)
+    return [(st, Int(0))]
+
+
+def _takes_value(name, pos):
+    """jansson *_new setters: a NULL value is refused with -1 (documented), otherwise generic behaviour"""
+    g = generic(name, SPEC[name])
+
+    def h(it, st, args, node):
+        if pos < len(args) and (args[pos] is NULL or (isinstance(args[pos], Int) and args[pos].v == 0)):
+            api_event(st, name, Int(-1), args, node)
+            return [(st, Int(-1))]
+        return g(it, st, args, node)
+    return h
+
+
 def h_noop_ret0(it, st, args, node):
     return [(st, Int(0))]
 
@@ -428,6 +543,10 @@ def build_model(overrides=None):
     m['strcmp'] = _str_cmp('strcmp')
     m['memset'] = h_memset
     m['snprintf'] = h_snprintf
+    m['json_string_value'] = h_json_string_value
+    m['json_decrefp'] = h_json_decrefp
+    m['json_object_set_new'] = _takes_value('json_object_set_new', 2)
+    m['json_array_append_new'] = _takes_value('json_array_append_new', 1)
     m['strcpy'] = h_strcpy
     if overrides:
         m.update(overrides)
